@@ -92,6 +92,7 @@ Definition final_matches (o : obs) (s : state) : bool :=
   match client s with LHalt => true | _ => false end
   && negb (crashed s)
   && negb (o_overlap o)        (* closures_exclusive: the core loop is inside a closure until it has replied *)
+  && negb (o_foreign o)        (* the closure's actions are steps of the core loop only *)
   && Bool.eqb (o_final_running o) (match sst s with Active => true | _ => false end)
   (* a running source keeps processing blocks (no_wedge + a live producer), and the core loop is then not
      stuck inside a closure *)
@@ -120,5 +121,5 @@ Definition verdict (k : case) : Z * Z :=
 Definition pt (p : point) : event := EL (LPt p).
 Definition ret (c : call) (r : rc) : event := EL (LRet c r).
 Definition mk (kd : srckind) (nchan ns np : Z) (os : list op) (es : list event)
-              (nr : nat) (cr ov fr pr : bool) : case :=
-  mkCase (mkObs kd nchan (ns, np) os es nr cr ov fr pr).
+              (nr : nat) (cr ov fo fr pr : bool) : case :=
+  mkCase (mkObs kd nchan (ns, np) os es nr cr ov fo fr pr).
